@@ -79,6 +79,8 @@ type c02Scn struct {
 	// 2: the real fluentdforward connection against a scripted fake Fluentd, 3: the real datadog connection against
 	// a fake HTTP intake (c02_fluentd.go)
 	Limit   int   // ms after which the driver fires its remaining actions (0: c02Limit)
+	Idle    int   // ms without progress after which the driver fires its next action (0: c02Stall); long idle periods
+	// let the ping loop run on a connection nothing else happens on
 	Big     int   // flavour 2: payload of every chunk in KiB (large chunks make a write block when the server stalls)
 	Bug     int   // 1: outside the connection contract: a blocked ack read ignores Close and the deadline
 	Conn    []int // outcome of the i-th connect, send, ack read, ping (0 beyond the end of the script)
@@ -123,6 +125,9 @@ func (s *c02Scn) String() string {
 	if s.Limit > 0 {
 		big += fmt.Sprintf(" limit=%d", s.Limit)
 	}
+	if s.Idle > 0 {
+		big += fmt.Sprintf(" idle=%d", s.Idle)
+	}
 	return fmt.Sprintf("n=%d cap=%d age=%d fl=%d bug=%d conn=%s send=%s ack=%s ping=%s push=%s stop=%d rev=%d gap=%d sig=%s",
 		s.N, s.Cap, s.MaxAge, s.Flavor, s.Bug, c02Ints(s.Conn), c02Ints(s.Send), c02Ints(s.Ack), c02Ints(s.Ping),
 		c02Ints(s.Push), s.Stop, s.StopRev, s.StopGap, c02Ints(s.Sig)) + big
@@ -151,6 +156,8 @@ func c02ParseScn(txt string) (*c02Scn, error) {
 			s.Big = iv
 		case "limit":
 			s.Limit = iv
+		case "idle":
+			s.Idle = iv
 		case "conn":
 			s.Conn = c02ParseInts(kv[1])
 		case "send":
@@ -550,6 +557,10 @@ func c02RunScenario(scn *c02Scn) *c02Result {
 	if scn.Limit > 0 {
 		limit = time.Duration(scn.Limit) * time.Millisecond
 	}
+	stall := c02Stall
+	if scn.Idle > 0 {
+		stall = time.Duration(scn.Idle) * time.Millisecond
+	}
 	if scn.Flavor == 2 {
 		c02LearnPing()
 	}
@@ -604,7 +615,7 @@ loop:
 			break loop
 		case <-tick.C:
 			w.mu.Lock()
-			if (time.Since(w.lastProgress) > c02Stall || time.Since(start) > limit) && w.stopStage < 2 {
+			if (time.Since(w.lastProgress) > stall || time.Since(start) > limit) && w.stopStage < 2 {
 				w.lastProgress = time.Now()
 				w.fire(true)
 			}
